@@ -149,6 +149,10 @@ class CompressedSerde:
         value, flags = self._serde.serialize(key, value)
 
         if len(value) > self._min_compress_len > 0:
+            # The wrapped serde may return text (e.g. the decimal form of an
+            # int); the compressor needs bytes.
+            if isinstance(value, str):
+                value = value.encode("utf8")
             old_value = value
             value = self._compress(value)
             # Don't use the compressed value if our end result is actually
